@@ -4,6 +4,7 @@ import (
 	"bytes"
 	"encoding/json"
 	"reflect"
+	"sort"
 	"testing"
 
 	"github.com/iotaledger/hive.go/ds/serializableorderedmap"
@@ -60,6 +61,10 @@ func maporderBody(s *simrt.Sim) {
 	case 13:
 		oversize(s, false)
 		return
+	case 12:
+		if unvalidated(s) {
+			return
+		}
 	}
 	// entries with maps are preferred
 	var e *entry
@@ -146,6 +151,127 @@ func maporderBody(s *simrt.Sim) {
 	}
 }
 
+// unvalidated: a value that breaks one length bound of its type settings. "Every value that Encode accepts (with or
+// without validation)": what the non-validating Encode accepts, the non-validating Decode reads back. Returns false
+// if the drawn type has no bound to break.
+func unvalidated(s *simrt.Sim) bool {
+	e := zoo[s.Choose(len(zoo))]
+	if e.decodeBroken {
+		return false
+	}
+	v := gen(s, e.n, 0)
+	conform(e.n, v)
+	what := violate(s, e.n, v)
+	if what == "" {
+		return false
+	}
+	orig := e.goValue(v)
+	refEncode(e.n, v) // canonical order of the auto-sorted parts
+	want := e.goValue(v)
+	var b []byte
+	var err error
+	if panicked, pv := hx.Try(func() { b, err = encodeReal(s, orig, false) }); panicked {
+		s.Fail("serix-roundtrip", "panic:Encode:"+e.name+":"+panicClass(pv), "Encode without validation of a %s value with %s panicked: %v", e.name, what, pv)
+	}
+	if err != nil {
+		s.Probe("rule-violating-value-rejected-without-validation")
+		return true
+	}
+	s.Fault("rule-violating-value")
+	s.Probe("rule-violating-value-accepted-without-validation:" + what)
+	s.Logf("type=%s %s encoded without validation: %d bytes %x", e.name, what, len(b), clip(b))
+	dst := reflect.New(e.rt)
+	var n int
+	if panicked, pv := hx.Try(func() { s.Atomic(func() { n, err = api.Decode(ctx, b, dst.Interface()) }) }); panicked {
+		s.Fail("serix-roundtrip", "panic:Decode:"+e.name+":"+panicClass(pv), "Decode without validation panicked on what Encode without validation produced for a %s value with %s: %v\nencoding: %x", e.name, what, pv, clip(b))
+	}
+	if err != nil || n != len(b) {
+		s.Fail("serix-roundtrip", "Decode:unvalidated:"+what, "Encode without validation accepted a %s value with %s, Decode without validation of those bytes returned n=%d (len %d) err=%v\nencoding: %x", e.name, what, n, len(b), err, clip(b))
+	}
+	if d := same(want.Elem(), dst.Elem(), e.name); d != "" {
+		s.Fail("serix-roundtrip", "value:unvalidated:"+what, "decoded %s value (with %s, no validation on either side) differs from the encoded one: %s", e.name, what, d)
+	}
+	return true
+}
+
+// views: values of self-serialising types (no type code) whose Encode() hands out memory the type keeps using - a
+// scratch buffer shared by all elements of a slice, windows into one frame as the keys of a map. The produced bytes
+// are the wire layout all the same, and the frame is what it was.
+func views(s *simrt.Sim) {
+	validate := s.Choose(2) == 1
+	if s.Choose(2) == 0 {
+		n := s.Choose(4)
+		var v Chips
+		want := []byte{byte(n)}
+		for i := 0; i < n; i++ {
+			c := Chip{byte(genBits(s, 8)), byte(genBits(s, 8))}
+			v = append(v, c)
+			want = append(want, 0xC1, c.A, c.B)
+		}
+		var b []byte
+		var err error
+		s.Atomic(func() { b, err = api.Encode(ctx, v, valOpts(validate)...); b = append([]byte{}, b...) })
+		s.Logf("Chips %v validate=%v -> %x err=%v", v, validate, b, err)
+		if err != nil {
+			s.Fail("encode-accepts", "Encode:chips", "Encode(validate=%v) rejected %v: %v", validate, v, err)
+		}
+		if !bytes.Equal(b, want) {
+			s.Fail("wire-format", "chips:elements-share-a-scratch-buffer", "Encode(validate=%v) of %d self-serialising elements whose Encode() returns one shared scratch buffer differs from the layout\nencode: %x\nlayout: %x", validate, n, b, want)
+		}
+		var back Chips
+		var k int
+		s.Atomic(func() { k, err = api.Decode(ctx, b, &back, valOpts(validate)...) })
+		if err != nil || k != len(b) || !reflect.DeepEqual(append(Chips{}, v...), append(Chips{}, back...)) {
+			s.Fail("serix-roundtrip", "value:chips", "Decode of %x returned %v n=%d err=%v, want %v", b, back, k, err, v)
+		}
+		return
+	}
+	frame := new([12]byte)
+	for i := range frame {
+		frame[i] = byte(genBits(s, 8))
+	}
+	before := *frame
+	n := s.Choose(5)
+	m := CellMap{}
+	type pair struct {
+		k []byte
+		v uint16
+	}
+	var pairs []pair
+	for i := 0; i < n && i < 4; i++ {
+		c := Cell{frame, 3 * i}
+		dup := false
+		for _, p := range pairs {
+			dup = dup || bytes.Equal(p.k, frame[3*i:3*i+3])
+		}
+		if dup {
+			continue // (two windows with equal content are two map keys with one encoding: not what this leg is about)
+		}
+		val := uint16(genBits(s, 16))
+		m[c] = val
+		pairs = append(pairs, pair{append([]byte{}, frame[3*i:3*i+3]...), val})
+	}
+	sort.Slice(pairs, func(i, j int) bool { return bytes.Compare(pairs[i].k, pairs[j].k) < 0 })
+	want := []byte{byte(len(pairs))}
+	for _, p := range pairs {
+		want = append(want, p.k...)
+		want = append(want, byte(p.v), byte(p.v>>8))
+	}
+	var b []byte
+	var err error
+	s.Atomic(func() { b, err = api.Encode(ctx, m, valOpts(validate)...); b = append([]byte{}, b...) })
+	s.Logf("CellMap of %d windows into %x validate=%v -> %x err=%v", len(pairs), before[:], validate, b, err)
+	if err != nil {
+		s.Fail("encode-accepts", "Encode:cellmap", "Encode(validate=%v) rejected a map keyed by %d windows into one frame: %v", validate, len(pairs), err)
+	}
+	if *frame != before {
+		s.Fail("wire-format", "cellmap:encode-writes-into-the-keys-memory", "Encode(validate=%v) of a map whose keys' Encode() returns windows into one frame changed that frame\nbefore: %x\nafter:  %x", validate, before[:], frame[:])
+	}
+	if !bytes.Equal(b, want) {
+		s.Fail("wire-format", "cellmap:keys-are-windows-into-one-frame", "Encode(validate=%v) of a map whose keys' Encode() returns windows into one frame differs from the layout\nencode: %x\nlayout: %x", validate, b, want)
+	}
+}
+
 // jsonEqual compares two documents as JSON values (ignoring object member order).
 func jsonEqual(a, b []byte) bool {
 	var x, y any
@@ -160,8 +286,12 @@ func jsonEqual(a, b []byte) bool {
 // dimension: a pure comparison on generated values.
 
 func refencBody(s *simrt.Sim) {
-	if s.Choose(16) == 15 {
+	switch s.Choose(16) {
+	case 15:
 		oversize(s, true)
+		return
+	case 14:
+		views(s)
 		return
 	}
 	e := zoo[s.Choose(len(zoo))]
